@@ -54,6 +54,11 @@ WRAPPERS = {
     "comment": "%s<!-- c {{{1}}} -->",
     "unclosed_noinclude": "%s<noinclude>tail {{{1}}}",
     "two_onlyinclude": "a<onlyinclude>%s</onlyinclude>b<onlyinclude>!</onlyinclude>c",
+    # two inclusion features in one body
+    "includeonly_in_onlyinclude": "doc<onlyinclude><includeonly>%s</includeonly></onlyinclude>more doc",
+    "noinclude_in_onlyinclude": "doc<onlyinclude>%s<noinclude>hidden {{{1}}}</noinclude></onlyinclude>",
+    "includeonly_and_noinclude": "<includeonly>%s</includeonly><noinclude>shown only on the page {{{1}}}</noinclude>",
+    "comment_in_includeonly": "<includeonly><!-- c -->%s</includeonly>",
 }
 
 
